@@ -6,6 +6,7 @@ import (
 	"time"
 
 	"verif/harness/core"
+	"verif/harness/drive/labels"
 	"verif/harness/drive/outline"
 )
 
@@ -210,5 +211,8 @@ func selfTest(ctx *core.Ctx) error {
 		return core.Infra("self-test: actions never taken: %v", res.ZeroCoverage)
 	}
 	ctx.Logf("self-test (iv): every action of MC_PageTree is taken (coverage run, %d states)", res.Distinct)
-	return outline.SelfTest(ctx)
+	if err := outline.SelfTest(ctx); err != nil {
+		return err
+	}
+	return labels.SelfTest(ctx)
 }
